@@ -91,6 +91,7 @@ def setOption(name: str, value: Any) -> None:
             n = int(value)
         except:
             errorCallback('illegal safeMode API option value: ' + str(value))
+            return
         if n < 0 or n > 15:
             errorCallback('illegal safeMode API option value: ' + str(value))
         else:
